@@ -19,9 +19,54 @@ pub struct Plan {
     pub cfg: HCfg,
     /// rounds of batches: each batch is a list of (key, size)
     pub batches: Vec<Vec<(u64, usize)>>,
+    /// per batch: replace it at run time by exactly as many small entries as the open blob's index still has free
+    /// slots (a blob continued across batches whose index fills exactly at a batch end); single flusher only
+    pub fill_exact: Vec<bool>,
+    /// wrapped device: blocks are reclaimed and reused, the new life of the first block ends on an old blob boundary
+    pub wrap: bool,
+}
+
+/// device wraps once: `nb` blocks of 1 MiB are filled with one-page entries (two blobs per block), then exactly one
+/// more blob index worth of entries goes into the recycled first block
+fn gen_wrap_plan(rng: &mut Rng) -> Plan {
+    let mut cfg = HCfg::small(AlgoCfg::default_for(Algo::Fifo));
+    cfg.policy = Policy::WriteOnInsertion;
+    cfg.mem_capacity = 4096;
+    cfg.blob_index_size = 4096;
+    cfg.block_size = 1024 * 1024;
+    cfg.blocks = 4 + rng.usize(2);
+    cfg.flushers = 1;
+    cfg.compression = Comp::None;
+    cfg.tombstone = false;
+    cfg.buffer_pool_size = 8 * 1024 * 1024;
+    cfg.clean_block_threshold = 1;
+    let index_cap = (cfg.blob_index_size - 12) / 24;
+    let pages = cfg.block_size / PAGE;
+    // entries per block with one-page entries: full blobs of index_cap entries + index page each, then the rest
+    let mut per_block = 0usize;
+    let mut left = pages;
+    while left > 1 {
+        let n = (left - 1).min(index_cap);
+        per_block += n;
+        left -= n + 1;
+    }
+    let total = cfg.blocks * per_block + index_cap * (1 + rng.usize(2)) - if rng.chance(1, 4) { rng.usize(3) } else { 0 };
+    let mut batches = vec![];
+    let mut k = 0u64;
+    let mut remaining = total;
+    while remaining > 0 {
+        let n = remaining.min(40 + rng.usize(120));
+        batches.push((0..n).map(|_| { k += 1; (k - 1, 900 + (k as usize % 7) * 100) }).collect());
+        remaining -= n;
+    }
+    let nb = batches.len();
+    Plan { cfg, batches, fill_exact: vec![false; nb], wrap: true }
 }
 
 fn gen_plan(rng: &mut Rng, tier: &str) -> Plan {
+    if rng.chance(1, 8) {
+        return gen_wrap_plan(rng);
+    }
     let mut cfg = HCfg::small(AlgoCfg::default_for(Algo::Fifo));
     cfg.policy = Policy::WriteOnInsertion;
     cfg.mem_capacity = 4096;
@@ -37,7 +82,8 @@ fn gen_plan(rng: &mut Rng, tier: &str) -> Plan {
     let max = cfg.max_entry_size();
     let index_cap = (cfg.blob_index_size - 12) / 24;
     let pages_per_block = cfg.block_size / PAGE;
-    let budget_pages = cfg.blocks * pages_per_block * 6 / 10; // stay below the device: no reclaim in the main part
+    // stay below the device (data pages only: every blob spends blob_index_size on its index): no reclaim in the main part
+    let budget_pages = cfg.blocks * (pages_per_block - cfg.blob_index_size / PAGE) * 6 / 10;
     let mut used = 0usize;
     let mut batches = vec![];
     let mut next_key = 0u64;
@@ -79,7 +125,8 @@ fn gen_plan(rng: &mut Rng, tier: &str) -> Plan {
             batches.push(batch);
         }
     }
-    Plan { cfg, batches }
+    let fill_exact = batches.iter().enumerate().map(|(i, _)| i > 0 && cfg.flushers == 1 && rng.chance(1, 3)).collect();
+    Plan { cfg, batches, fill_exact, wrap: false }
 }
 
 pub struct Outcome {
@@ -89,6 +136,8 @@ pub struct Outcome {
     pub index_full_blobs: usize,
     pub multi_block_batches: usize,
     pub continued_blobs: usize,
+    pub exact_fills: usize,
+    pub blocks_reclaimed: usize,
 }
 
 async fn run_plan(plan: &Plan) -> Result<Outcome, String> {
@@ -98,7 +147,26 @@ async fn run_plan(plan: &Plan) -> Result<Outcome, String> {
     let mut latest: BTreeMap<u64, Stamp> = BTreeMap::new();
     let mut all: BTreeSet<Stamp> = BTreeSet::new();
     let mut multi_block_batches = 0;
-    for batch in &plan.batches {
+    let mut exact_fills = 0usize;
+    let index_cap = (cfg.blob_index_size - 12) / 24;
+    let mut fresh_key = 1_000_000u64;
+    for (bi, batch) in plan.batches.iter().enumerate() {
+        let mut batch = batch.clone();
+        if plan.fill_exact.get(bi).copied().unwrap_or(false) {
+            // entries in the blob that is still open = the blob holding the highest sequence on the device
+            let img = image::parse_image(cfg, &ex.dir.0);
+            if let Some(last) = img.entries.iter().max_by_key(|e| e.sequence) {
+                let in_blob = img.entries.iter().filter(|e| e.block == last.block && e.blob_offset == last.blob_offset).count();
+                let used_pages = img.entries.iter().filter(|e| e.block == last.block).map(|e| e.len.div_ceil(PAGE)).sum::<usize>();
+                let free = index_cap - in_blob.min(index_cap);
+                // only when the block still has room for them (one page each) - otherwise the blob ends with the block anyway
+                if free > 0 && free < index_cap && used_pages + free + 4 < cfg.block_size / PAGE {
+                    batch = (0..free).map(|_| { fresh_key += 1; (fresh_key, 28 + (fresh_key as usize % 50)) }).collect();
+                    exact_fills += 1;
+                }
+            }
+        }
+        let batch = &batch;
         ex.step(&HOp::HoldFlush).await;
         let w0 = ex.ctl.io.write_count();
         for (k, size) in batch {
@@ -259,6 +327,8 @@ async fn run_plan(plan: &Plan) -> Result<Outcome, String> {
         index_full_blobs,
         multi_block_batches,
         continued_blobs,
+        exact_fills,
+        blocks_reclaimed: cleans_before,
     })
 }
 
@@ -286,6 +356,11 @@ pub fn run(seed: u64, tier: &str, shard: usize, nshards: usize) -> ShardResult {
                 res.count("index_full_blobs", o.index_full_blobs as u64);
                 res.count("batches_spanning_blocks", o.multi_block_batches as u64);
                 res.count("blobs_continued_across_batches", o.continued_blobs as u64);
+                res.count("continued_blob_index_filled_exactly_at_batch_end", o.exact_fills as u64);
+                res.count("blocks_reclaimed_before_close", o.blocks_reclaimed as u64);
+                if plan.wrap {
+                    res.count("wrapped_device_plans", 1);
+                }
                 res.count(&format!("cfg_block_{}", plan.cfg.block_size), 1);
                 res.count(&format!("cfg_comp_{:?}", plan.cfg.compression), 1);
                 if o.entries_parsed >= 2 {
